@@ -1308,11 +1308,20 @@ func ruleMissPathGetsReadIndex(c *Ctx, rule string) {
 // ruleForegroundIgnoresCallerContext (C20.10): a stale response inside its window is returned at once, whatever the state
 // of the caller's context. No foreground function of the hit path branches on the request context's Err or Done.
 func ruleForegroundIgnoresCallerContext(c *Ctx, rule string) {
-	hh := c.hitHandler()
+	ruleForegroundIgnoresCallerContextFrom(c, rule, c.hitHandler(), "the hit path returns the context's error before the stale-while-revalidate branch; a caller whose context is already cancelled gets `context canceled` instead of the stale response, and no background revalidation is started")
+}
+
+// ruleInvalidationIgnoresCallerContext (C07.16): what the cache does after the origin answered an unsafe request does not depend
+// on the caller's context any more: the answer is handed back, so the invalidation happens.
+func ruleInvalidationIgnoresCallerContext(c *Ctx, rule string) {
+	ruleForegroundIgnoresCallerContextFrom(c, rule, c.A.Root, "a decision on the exchange depends on the caller's context being done; a POST whose context ends between the origin's answer and the bookkeeping returns its 2xx to the caller but deletes nothing, and the next GET is a HIT with the old content")
+}
+
+func ruleForegroundIgnoresCallerContextFrom(c *Ctx, rule string, hh *ssa.Function, witness string) {
 	if hh == nil {
 		return
 	}
-	desc := "no foreground decision of the hit path depends on whether the caller's context is done"
+	desc := "no foreground decision depends on whether the caller's context is done"
 	bg := map[*ssa.Function]bool{}
 	for _, b := range c.backgroundFunctions() {
 		for _, f := range c.reachableFrom(b) {
@@ -1332,7 +1341,11 @@ func ruleForegroundIgnoresCallerContext(c *Ctx, rule string) {
 			}
 			n++
 			if c.An.dependsOnCall(iff.Cond, func(cc *ssa.Call) bool {
-				return cc.Call.IsInvoke() && (cc.Call.Method.Name() == "Err" || cc.Call.Method.Name() == "Done") && typeIs(cc.Call.Value.Type(), "context", "Context")
+				if !(cc.Call.IsInvoke() && (cc.Call.Method.Name() == "Err" || cc.Call.Method.Name() == "Done") && typeIs(cc.Call.Value.Type(), "context", "Context")) {
+					return false
+				}
+				// the caller's context: the one the request carries (a store's own timeout context is another matter)
+				return c.An.dependsOnCall(cc.Call.Value, func(rc *ssa.Call) bool { return callIsMethod(&rc.Call, "net/http", "Request", "Context") })
 			}) {
 				bad = c.P.ShortName(fn) + "@" + c.P.InstrPos(iff)
 			}
@@ -1340,7 +1353,7 @@ func ruleForegroundIgnoresCallerContext(c *Ctx, rule string) {
 	}
 	switch {
 	case bad != "":
-		c.Fail(rule, "foreground-ignores-caller-context", desc, bad+": the hit path returns the context's error before the stale-while-revalidate branch; a caller whose context is already cancelled gets `context canceled` instead of the stale response, and no background revalidation is started")
+		c.Fail(rule, "foreground-ignores-caller-context", desc, bad+": "+witness)
 	default:
 		c.Pass(rule, "foreground-ignores-caller-context", desc, fmt.Sprintf("%d decision(s) in the foreground hit path", n))
 	}
